@@ -1,4 +1,4 @@
 From Coq Require Import Extraction ExtrOcamlBasic.
 From TK Require Import Conn_Model Conn_Spec.
 Extraction "c03_model.ml" is_connected is_connected_fixed find_neighbors knn_brute
-  wf_b uniform_b strong_b from_first_b relabel kseq.
+  wf_b uniform_b strong_b from_first_b relabel kseq tie_free_b boundary_free_b pdist.
